@@ -122,12 +122,40 @@ func secRun(in []byte) (interface{}, error) {
 	}, 0)
 	runAbortable(func() { sup.GetSlotState() })
 	paths = append(paths, "checkpoint load", "slot supervisor with failing nodes")
+	if raw, ok := cfg.Sub["supervisor"]; ok {
+		// the supervisor family's scenarios (master unchanged, fail-over to a remembered slave, nodes failing, nobody master)
+		// with credentials in the supervised node
+		svSourcePassword, svTargetPassword = sentinels["source.password_raw"], sentinels["target.password_raw"]
+		if _, err := svRun(raw); err != nil {
+			return nil, err
+		}
+		svSourcePassword, svTargetPassword = "pw", ""
+		paths = append(paths, "slot supervisor: master unchanged / fail-over / errors / retries exhausted")
+	}
 	// ---- documents the tool shows / serves
 	safe := conf.GetSafeOptions()
 	js, _ := json.Marshal(safe)
 	tr.Emit(tracer.Ev{"e": "emit", "sink": "config-echo", "fields": fieldsIn(string(js)), "bytes": len(js)})
 	tr.Emit(tracer.Ev{"e": "config", "source_password_shown": safe.SourcePasswordRaw, "target_password_shown": safe.TargetPasswordRaw})
 	tr.Emit(tracer.Ev{"e": "emit", "sink": "config-echo", "fields": fieldsIn(fmt.Sprintf("%v %+v", safe, safe)), "bytes": 0})
+	// which credentials are configured must not matter: every subset of the four fields
+	for m := 0; m < 16; m++ {
+		saved := conf.Options
+		set := func(bit int, dst *string, f string) {
+			*dst = ""
+			if m&(1<<bit) != 0 {
+				*dst = sentinels[f]
+			}
+		}
+		set(0, &conf.Options.SourcePasswordRaw, "source.password_raw")
+		set(1, &conf.Options.TargetPasswordRaw, "target.password_raw")
+		set(2, &conf.Options.SourcePasswordEncoding, "source.password_encoding")
+		set(3, &conf.Options.TargetPasswordEncoding, "target.password_encoding")
+		so := conf.GetSafeOptions()
+		sj, _ := json.Marshal(so)
+		tr.Emit(tracer.Ev{"e": "emit", "sink": "config-echo", "fields": fieldsIn(string(sj) + fmt.Sprintf("%v %+v", so, so)), "bytes": len(sj), "configured": m})
+		conf.Options = saved
+	}
 	node := &slot.SyncNode{Id: 0, Source: "10.1.1.1:6379", SourcePassword: sentinels["source.password_raw"], Target: []string{"10.2.2.2:6379"}, TargetPassword: sentinels["target.password_raw"], SlotLeftBoundary: 0, SlotRightBoundary: 100}
 	ds := dbSync.VerifNewDbSyncer(node, true, "rid", 100, 0, utils.CheckpointKey, 4)
 	st, _ := json.Marshal(ds.GetExtraInfo())
